@@ -279,6 +279,36 @@ def run_apalache(work, module, init, inv, length, cinit=None, timeout=300, tag=N
     return m.group(1)
 
 
+class CodePanic(Exception):
+    """The code under test panicked while a driver ran it (stack top in the repository, not in the harness)."""
+
+    def __init__(self, what, output):
+        Exception.__init__(self, what)
+        self.what = what
+        self.output = output
+
+
+def code_panic(output):
+    """If output shows a Go panic / fatal error raised in repository code (first frame that is neither the runtime
+    nor a harness file lies in the repository), return a one-line summary, else None."""
+    if not output:
+        return None
+    m = re.search(r"^(panic: .*|fatal error: .*)$", output, re.M)
+    if not m:
+        return None
+    tail = output[m.start():]
+    frames = re.findall(r"^\t(/\S+\.go):(\d+)", tail, re.M)
+    for (f, ln) in frames:
+        if "/src/runtime/" in f or "/src/testing/" in f or "/src/sync/" in f:
+            continue
+        if f.startswith(os.path.join(VERIF, "harness")):
+            return None      # raised by the harness itself
+        if f.startswith(REPO.rstrip("/") + "/"):
+            return "%s at %s:%s" % (m.group(1)[:200], f[len(REPO.rstrip("/")) + 1:], ln)
+        return None
+    return None
+
+
 class Verdict:
     """Collects violations / known findings for one check run."""
 
@@ -328,6 +358,14 @@ def main_wrapper(pid, fn):
     rc = 2
     try:
         rc = fn(tier, work)
+    except CodePanic as ex:
+        os.makedirs(os.path.join(VERIF, "work", "violations"), exist_ok=True)
+        rp = os.path.join(VERIF, "work", "violations", "%s_%d_panic.txt" % (pid, os.getpid()))
+        with open(rp, "w") as fh:
+            fh.write(ex.output[-200000:])
+        print("VIOLATION property=%s replay=%s" % (pid, rp))
+        print("  detail: %s: the code under test panicked: %s" % (pid, ex.what))
+        rc = 1
     except MachineryError as ex:
         print("MACHINERY-ERROR property=%s: %s" % (pid, ex))
         rc = 2
